@@ -332,7 +332,13 @@ impl<'a> Model<'a> {
   fn prelude(&self, n: &str, v: &RV) -> R<bool> {
     Ok(match n {
       "any" => true,
-      "uint" | "unsigned" => matches!(v, RV::Uint(_)),
+      "uint" => matches!(v, RV::Uint(_)),
+      // unsigned = uint / biguint, biguint = #6.2(bstr)
+      "unsigned" => matches!(v, RV::Uint(_)) || matches!(v, RV::Tag(2, x) if matches!(**x, RV::Bytes(_))),
+      "integer" => is_int(v) || matches!(v, RV::Tag(2 | 3, x) if matches!(**x, RV::Bytes(_))),
+      "biguint" => matches!(v, RV::Tag(2, x) if matches!(**x, RV::Bytes(_))),
+      "bignint" => matches!(v, RV::Tag(3, x) if matches!(**x, RV::Bytes(_))),
+      "bigint" => matches!(v, RV::Tag(2 | 3, x) if matches!(**x, RV::Bytes(_))),
       "nint" => matches!(v, RV::Nint(_)),
       "int" => is_int(v),
       "bstr" | "bytes" => matches!(v, RV::Bytes(_)),
